@@ -29,6 +29,7 @@ import contracts.order1d  # noqa: E402
 import contracts.tsplib  # noqa: E402
 import contracts.control  # noqa: E402
 import contracts.control_kernels  # noqa: E402
+import contracts.instgen  # noqa: E402
 import bounded.bl_reference  # noqa: E402
 import bounded.objectives_oracle  # noqa: E402
 
@@ -62,11 +63,17 @@ PLANS["C02"] = Plan(
     bounded=[bounded.objectives_oracle.harness],
     explanation="proved: the four count/area kernels equal their spec functions (maxbin, count_in, area_in; minimum over bins "
                 "as attained lower bound) for arbitrary row order and sparse bins, no overflow, scratch write-before-read; "
-                "the two skyline kernels: memory safety, no overflow, termination, value within [(bins-1)*A, bins*A]. "
+                "the two skyline kernels: memory safety, no overflow, termination, value within [(bins-1)*A, bins*A]; "
+                "lower_bound() / upper_bound() / to_bin_count() of the three base classes (the other four inherit them) are "
+                "the documented functions of the instance attributes (smallest item area as a recursive minimum), and every "
+                "value scale*(k-1)+tie of the count and area objectives lies between them, converts back to k, and is "
+                "strictly smaller for fewer bins (lemmas bounds_item_count, bounds_area, dominance; they take L <= k from "
+                "C03 and k <= n_items from feasibility). "
                 "bounded: all seven objective classes vs an independent recomputation incl. area under the skyline, "
                 "declared bounds, to_bin_count and dominance (not counted as proved)",
     assumptions=["a packing has fewer than 2**31 rows (n*n and n*bin_area fit in int64)",
-                 "skyline value = integral of the skyline: bounded oracle only", "bounds clause rests on C03 (lower_bound_bins)"],
+                 "skyline value = integral of the skyline (and hence the lower-bound clause of the two skyline objectives, which "
+                 "needs skyline area >= covered area): bounded oracle only", "bounds clause rests on C03 (lower_bound_bins <= bins)"],
 )
 
 ER = "moptipyapps.ttp.errors"
@@ -281,14 +288,23 @@ PLANS["C03"] = Plan(
 
 PLANS["C17"] = Plan(
     "C17", "other",
-    functions=["moptipyapps.binpacking2d.instgen.errors:Errors.evaluate"],
+    functions=["moptipyapps.binpacking2d.instgen.errors:Errors.evaluate",
+               "moptipyapps.binpacking2d.instgen.inst_decoding:InstanceDecoder.decode#split-cut",
+               "moptipyapps.binpacking2d.instgen.inst_decoding:InstanceDecoder.decode#area-floor",
+               "moptipyapps.binpacking2d.instgen.inst_decoding:InstanceDecoder.decode#slack-cut"],
     bounded=[bounded.instgen.harness],
-    explanation="proved: instgen.Errors.evaluate clamps its result to [0, 1] (block contract on the return statement). bounded: "
+    explanation="proved: instgen.Errors.evaluate clamps its result to [0, 1] (block contract on the return statement); three "
+                "Hoare triples on the real statements of InstanceDecoder.decode that carry the area argument: a splitting cut "
+                "(phase 1) replaces one item by two positive parts of the same total size or changes nothing; after phase 1 "
+                "the area is min_bins * bin area and the floor min_area exceeds (min_bins - 1) * bin area; a slack cut (phase 2) "
+                "decrements current_area by exactly the area it removes from the item, never below min_area, and leaves a "
+                "positive item - for every item, cut dimension and selector value. bounded: "
                 "post-condition of InstanceDecoder.decode monitored on templates x slack x vectors incl. the extreme values and "
                 "their float neighbours (name, bin size, item count, total area in ((min_bins-1)*A, min_bins*A], lower bound == "
                 "min_bins, repeatability), Errors == 0 for the template",
-    assumptions=["InstanceDecoder.decode (list-of-lists surgery, float-to-int selection) is not under a deductive contract: "
-                 "bounded only", "Hardness repeatability (runs inner optimisers): not covered",
+    assumptions=["InstanceDecoder.decode as a whole (list-of-lists surgery, float-to-int item selection, merging, shuffling) is not "
+                 "under a deductive contract: the three block contracts cover its arithmetic core, the rest is bounded only; "
+                 "in the block contracts the selected item is a two-cell integer array and `items.append` is a summary", "Hardness repeatability (runs inner optimisers): not covered",
                  "'can be packed into exactly min_bins bins' is covered through the area/lower-bound pair only"],
 )
 
@@ -358,7 +374,13 @@ PLANS["C01"].functions += _WRAP_ENC + ["moptipyapps.binpacking2d.instance:Instan
 PLANS["C13"].functions += ["moptipyapps.binpacking2d.instance:Instance.__new__#dtype"]
 PLANS["C02"].functions += _WRAP_OBJ + [OB + "bin_count_and_last_small:BinCountAndLastSmall.to_bin_count",
                                        OB + "bin_count_and_last_empty:BinCountAndLastEmpty.to_bin_count"]
-PLANS["C02"].lemmas += ["dominance"]
+PLANS["C02"].lemmas += ["dominance", "bounds_item_count", "bounds_area", "bounds_bin_count"]
+PLANS["C02"].functions += [OB + "bin_count:BinCount.lower_bound", OB + "bin_count:BinCount.upper_bound",
+                           OB + "bin_count:BinCount.to_bin_count",
+                           OB + "bin_count_and_last_empty:BinCountAndLastEmpty.lower_bound",
+                           OB + "bin_count_and_last_empty:BinCountAndLastEmpty.upper_bound",
+                           OB + "bin_count_and_last_small:BinCountAndLastSmall.lower_bound",
+                           OB + "bin_count_and_last_small:BinCountAndLastSmall.upper_bound"]
 PLANS["C07"].functions += _WRAP_TTP
 PLANS["C07"].lemmas += ["even_prod"]
 PLANS["C13"].functions += _WRAP_ENC + _WRAP_OBJ + _WRAP_TTP + ["moptipyapps.tsp.fea1p1_revn:TSPFEA1p1revn.solve"]
@@ -432,10 +454,12 @@ META = {
     "C19": {"text": "round-trip contracts monitored on generated objects and tables (bounded exploration); nothing is called proved",
             "note": "string/CSV code is outside the VC generator's subset and outside what z3/cvc5 decide (DESIGN.md C19)",
             "technique": "run-time contract monitor (bounded stand-in)"},
-    "C17": {"text": "decode post-condition monitored on a stated finite family of templates/vectors/slack values (bounded); "
-                    "clamp of the similarity objective proved",
-            "note": "level 'other': one proved clause + bounded stand-in; Hardness not covered",
-            "technique": "run-time contract monitor (bounded) + block contract (z3)"},
+    "C17": {"text": "the area arithmetic of the decoder (splitting cut, area floor, slack cut with exact area accounting) and the "
+                    "clamp of the similarity objective proved as Hoare triples on the real statement blocks; the decode "
+                    "post-condition as a whole monitored on a stated finite family of templates/vectors/slack values (bounded)",
+            "note": "level 'other': block contracts for the arithmetic core + bounded stand-in for the whole method; Hardness not covered",
+            "technique": "contract-based deductive verification of statement blocks (nested block contracts, z3) + run-time "
+                         "contract monitor (bounded)"},
     "C03": {"text": "arithmetic of the bound proved on the real statement block (exact ceiling, maximum, >= area bound); validity "
                     "of the DAMV bound is an assumed theorem, backed by instances with optimum known by construction",
             "note": "level 'other': proof for the arithmetic clauses + assumption A2 + bounded harness",
